@@ -155,3 +155,13 @@ class Collector:
                 obj = dict(obj)
                 obj["failing_cases_with_this_key"] = self.count[key]
                 C.report(ctx, key, what, obj)
+
+
+def read_redirect(ctx, name):
+    """text written by `Redirect "<name>" Print x.` in a scratch case file (coqc runs with cwd = <scratch>/cases)"""
+    import os
+    p = os.path.join(ctx.scratch, "cases", name + ".out")
+    try:
+        return open(p).read()
+    except OSError:
+        return ""
